@@ -3,10 +3,13 @@ package main
 import (
 	"encoding/json"
 	"fmt"
+	"github.com/aml-org/amf-custom-validator/pkg/events"
+	"github.com/aml-org/amf-custom-validator/pkg/milestones"
 	"math/rand"
 	"os"
 	"strings"
 	"sync"
+	"time"
 
 	"github.com/aml-org/amf-custom-validator/pkg"
 )
@@ -109,6 +112,14 @@ func runRaceStress(seed int64, goroutines, callsEach int) {
 		got, what string
 	}
 	var cold []pending
+	// every report that came back is kept and looked at again when everything is over: what a call returned must still be
+	// what it returned (a recycled buffer behind a report would show here)
+	type held struct {
+		got  *string
+		want string
+		what string
+	}
+	var kept []held
 	for t := 0; t < goroutines; t++ {
 		wg.Add(1)
 		go func(t int) {
@@ -132,10 +143,24 @@ func runRaceStress(seed int64, goroutines, callsEach int) {
 					i = k % (len(jobs) - 2) // every goroutine works on the same valid job at the same time
 				}
 				var got, want, what string
+				var raw, rawCopy string
+				if k%4 == 2 {
+					// with an event channel and the library's milestone generator (all goroutines at the same time, on the same job):
+					// the milestones of THIS call lie inside this call
+					mi := k % nWarm
+					if bad := milestonesOf(jobs[mi].profile, jobs[mi].data); bad != "" {
+						mu.Lock()
+						calls++
+						mismatches = append(mismatches, fmt.Sprintf("goroutine %d call %d Validate with an event channel on job %d: %s", t, k, mi, bad))
+						mu.Unlock()
+						continue
+					}
+				}
 				switch (t + 2*k) % 3 {
 				case 0:
 					o := validate(jobs[i].profile, jobs[i].data, defaultRC())
 					got, want, what = o.Kind+"\n"+o.Report, serial[i], "ValidateWithConfiguration"
+					raw, rawCopy = o.Raw, o.Report
 				case 1:
 					rep, err := pkg.ValidateCompiledWithConfiguration(shared, jobs[i].data, false, nil, fixedClock{}, defaultRC())
 					got, want, what = fmt.Sprint(err == nil)+"\n"+rep, sharedSerial[i], "ValidateCompiled(shared)"
@@ -163,12 +188,20 @@ func runRaceStress(seed int64, goroutines, callsEach int) {
 				}
 				if got != want {
 					mismatches = append(mismatches, fmt.Sprintf("goroutine %d call %d %s on job %d differs from the serial result", t, k, what, i))
+				} else if raw != "" {
+					r2 := raw
+					kept = append(kept, held{&r2, rawCopy, fmt.Sprintf("goroutine %d call %d %s on job %d", t, k, what, i)})
 				}
 				mu.Unlock()
 			}
 		}(t)
 	}
 	wg.Wait()
+	for _, h := range kept {
+		if *h.got != h.want {
+			mismatches = append(mismatches, h.what+": the report CHANGED after it had been returned")
+		}
+	}
 	// the cold jobs' references, now that the concurrent phase is over
 	for i, j := range jobs {
 		if isCold(i) {
@@ -184,4 +217,43 @@ func runRaceStress(seed int64, goroutines, callsEach int) {
 	b, _ := json.Marshal(map[string]any{"outcome": "ok", "calls": calls, "goroutines": goroutines, "mismatches": mismatches})
 	fmt.Println(string(b))
 	_ = os.Stdout
+}
+
+// milestonesOf validates with an event channel whose events the library's own generator turns into milestones; returns a
+// complaint when they are not one per stage, each lying inside the call's own time span, with a non-negative duration
+func milestonesOf(profile, data string) string {
+	ch := make(chan events.Event, 32)
+	mch := make(chan milestones.Milestone, 32)
+	done := make(chan []milestones.Milestone, 1)
+	go func() {
+		milestones.GenerateMilestonesFromEvents(&ch, &mch) // closes mch when the event channel is closed
+	}()
+	go func() {
+		var ms []milestones.Milestone
+		for m := range mch {
+			ms = append(ms, m)
+		}
+		done <- ms
+	}()
+	t0 := time.Now()
+	_, err := pkg.ValidateWithConfiguration(profile, data, false, &ch, fixedClock{}, defaultRC())
+	t1 := time.Now()
+	var ms []milestones.Milestone
+	select {
+	case ms = <-done:
+	case <-time.After(20 * time.Second):
+		return "the milestone generator did not finish (channel not closed?)"
+	}
+	if err != nil {
+		return ""
+	}
+	if len(ms) != 7 {
+		return fmt.Sprintf("%d milestones for 7 completed stages", len(ms))
+	}
+	for _, m := range ms {
+		if m.Duration < 0 || m.Start.Before(t0.Add(-time.Millisecond)) || m.Start.Add(m.Duration).After(t1.Add(time.Millisecond)) {
+			return fmt.Sprintf("milestone %s [%s + %s] lies outside the call [%s .. %s]", m.Operation, m.Start.Format("15:04:05.000000"), m.Duration, t0.Format("15:04:05.000000"), t1.Format("15:04:05.000000"))
+		}
+	}
+	return ""
 }
